@@ -1,6 +1,8 @@
 import TxdbusModel.Proofs.Wire.TopLevel
 import TxdbusModel.Proofs.Wire.AlignSpec
 import TxdbusModel.Proofs.Wire.ConfTop
+import TxdbusModel.Proofs.Wire.FuelFree
+import TxdbusModel.Proofs.Wire.CostVsCode
 /-!
 Property C02 - encoded bytes are exactly the DBus wire format, in both directions.
 
@@ -124,6 +126,162 @@ theorem C02_decode_dict (le : Bool) (fds : Code.Fds) (kt vt : Ty) (vs : List Val
       .ok (bs.length, [.dict pairs]) := by
   apply C02_decode le fds _ _ off bs pre suf _ fuel (by simp [allWF, hts]) henc hpre _ hfuel
   simp [Code.fromSpecFields, Code.fromSpec, hval, Code.dictOf_distinct pairs hkeys]
+
+/-! ### Extension 2026-09-30: no premise on the depth of the value
+
+`C02_encode`, `C02_decode` and their variants ask for `depthAll vs ≤ fuel`.  Below the same statements with fuels
+computed from the signature and the bytes: the decoder at `Cost.codeFuel sig data off = |sig| + (|data| - off) + 1`,
+the encoder at `|sig| + |bytes it produces|` (for a signature without `v`: at the nesting depth of the signature).
+They follow from `Spec.depth_le_sig_add_length` (Proofs/Wire/FuelFree) and add no side condition.
+`C02_unmarshal_fuel_canonical` is the composition with C05 (Proofs/Wire/CostVsCode) for data that is NOT a
+spec-conformant encoding: at that fuel the decoder's answer is THE answer of the model. -/
+
+/-- `C02_decode` at ANY fuel from `Cost.codeFuel` on. -/
+theorem C02_decode_any_fuel (le : Bool) (fds : Code.Fds) (ts : List Ty) (vs : List Val) (off : Nat)
+    (bs pre suf : Bytes) (values : List PyVal) (fuel : Nat)
+    (hts : allWF ts = true) (henc : Spec.encodeAll Spec.alignTable (endianOf le) ts vs off = some bs)
+    (hpre : pre.length = off) (hval : Code.fromSpecFields fds vs ts = some values)
+    (hfuel : Cost.codeFuel (renderAll ts) (pre ++ bs ++ suf) off ≤ fuel) :
+    Code.unmarshal fuel (renderAll ts) (pre ++ bs ++ suf) off le fds = .ok (bs.length, values) :=
+  Code.unmarshal_eq_spec_fuel_free Spec.alignTable Code.padOK_spec Code.alignTable_pos le fds ts vs off bs pre suf values
+    fuel hts henc hpre hval hfuel
+
+/-- `C02_decode` with no fuel left in the statement: `unmarshal` run at the fuel computed from the lengths of its own
+arguments decodes every spec-conformant encoding to the value it encodes.  Hypotheses as `C02_decode` minus `hfuel`;
+`fds` is ANY descriptor argument (`None`, or a list of whatever objects). -/
+theorem C02_decode_fuel_free (le : Bool) (fds : Code.Fds) (ts : List Ty) (vs : List Val) (off : Nat)
+    (bs pre suf : Bytes) (values : List PyVal)
+    (hts : allWF ts = true) (henc : Spec.encodeAll Spec.alignTable (endianOf le) ts vs off = some bs)
+    (hpre : pre.length = off) (hval : Code.fromSpecFields fds vs ts = some values) :
+    Code.unmarshal (Cost.codeFuel (renderAll ts) (pre ++ bs ++ suf) off) (renderAll ts) (pre ++ bs ++ suf) off le fds =
+      .ok (bs.length, values) :=
+  C02_decode_any_fuel le fds ts vs off bs pre suf values _ hts henc hpre hval (Nat.le_refl _)
+
+/-- `C02_decode_dict` without the fuel premise. -/
+theorem C02_decode_dict_fuel_free (le : Bool) (fds : Code.Fds) (kt vt : Ty) (vs : List Val) (off : Nat)
+    (bs pre suf : Bytes) (pairs : List (PyVal × PyVal))
+    (hts : (Ty.array (.dict kt vt)).WF = true)
+    (henc : Spec.encodeAll Spec.alignTable (endianOf le) [.array (.dict kt vt)] [.array vs] off = some bs)
+    (hpre : pre.length = off)
+    (hval : Code.fromSpecList fds vs (.dict kt vt) = some (pairs.map fun p => .list [p.1, p.2]))
+    (hkeys : Code.DistinctKeys (pairs.map (·.1))) :
+    Code.unmarshal (Cost.codeFuel (renderAll [.array (.dict kt vt)]) (pre ++ bs ++ suf) off)
+        (renderAll [.array (.dict kt vt)]) (pre ++ bs ++ suf) off le fds =
+      .ok (bs.length, [.dict pairs]) :=
+  C02_decode_dict le fds kt vt vs off bs pre suf pairs _ hts henc hpre hval hkeys
+    (Nat.le_of_lt (Spec.depthAll_le_codeFuel _ _ _ _ off bs pre suf henc hpre))
+
+/-- `C02_encode` with the fuel bounded by the size of what is produced: `|signature| + |bytes|` (or more). -/
+theorem C02_encode_fuel_free (le : Bool) (ts : List Ty) (pv : PyVal) (items : List PyVal) (vs : List Val)
+    (fdl : List PyVal) (k' off : Nat) (bs : Bytes) (fuel : Nat)
+    (hitems : Code.topItems pv = .ok items) (hrep : Code.RepFields fdl vs true ts items 0 k')
+    (henc : Spec.encodeAll Spec.alignTable (endianOf le) ts vs off = some bs)
+    (hfuel : (renderAll ts).length + bs.length ≤ fuel) :
+    Code.marshal fuel (renderAll ts) pv off le (some []) = .ok (bs.length, bs, some (fdl.take k')) :=
+  Code.marshal_eq_spec_sized Spec.alignTable Code.padOK_spec Code.alignTable_pos le ts pv items vs fdl k' off bs fuel
+    hitems hrep henc hfuel
+
+/-- `C02_encode` for a signature without `v`: the fuel is bounded by the SIGNATURE alone (its nesting depth
+`tyDepthAll ts`, which is at most its length: `tyDepthAll_le_render`). -/
+theorem C02_encode_noVariant_fuel_free (le : Bool) (ts : List Ty) (pv : PyVal) (items : List PyVal) (vs : List Val)
+    (fdl : List PyVal) (k' off : Nat) (bs : Bytes) (fuel : Nat)
+    (hitems : Code.topItems pv = .ok items) (hrep : Code.RepFields fdl vs true ts items 0 k')
+    (henc : Spec.encodeAll Spec.alignTable (endianOf le) ts vs off = some bs)
+    (hnv : allNoVariant ts = true) (hfuel : tyDepthAll ts ≤ fuel) :
+    Code.marshal fuel (renderAll ts) pv off le (some []) = .ok (bs.length, bs, some (fdl.take k')) :=
+  Code.marshal_eq_spec_noVariant Spec.alignTable Code.padOK_spec Code.alignTable_pos le ts pv items vs fdl k' off bs fuel
+    hitems hrep henc hnv hfuel
+
+/-- `C02_encode_conf` with the fuel bounded by the size of what is produced. -/
+theorem C02_encode_conf_fuel_free (le : Bool) (ts : List Ty) (pv : PyVal) (items : List PyVal) (vs : List Val)
+    (fdl : List PyVal) (k' off : Nat) (bs : Bytes) (fuel : Nat)
+    (hitems : Code.structFields pv = some items) (hrep : Code.ConfFields fdl vs true ts items 0 k')
+    (henc : Spec.encodeAll Spec.alignTable (endianOf le) ts vs off = some bs)
+    (hfuel : (renderAll ts).length + bs.length ≤ fuel) :
+    Code.marshal fuel (renderAll ts) pv off le (some []) = .ok (bs.length, bs, some (fdl.take k')) :=
+  Code.marshal_eq_spec_conf_sized Spec.alignTable Code.padOK_spec Code.alignTable_pos le ts pv items vs fdl k' off bs
+    fuel hitems hrep henc hfuel
+
+/-- `C02_encode_checked` (executable hypotheses) with the fuel bounded by the size of what is produced. -/
+theorem C02_encode_checked_fuel_free (le : Bool) (n : Nat) (ts : List Ty) (pv : PyVal) (vs : List Val)
+    (fdl : List PyVal) (off : Nat) (bs : Bytes) (fuel : Nat)
+    (hchk : Code.toSpecTop n ts pv = some (vs, fdl))
+    (henc : Spec.encodeAll Spec.alignTable (endianOf le) ts vs off = some bs)
+    (hfuel : (renderAll ts).length + bs.length ≤ fuel) :
+    Code.marshal fuel (renderAll ts) pv off le (some []) = .ok (bs.length, bs, some fdl) :=
+  C02_encode_checked le n ts pv vs fdl off bs fuel hchk henc
+    (Nat.le_trans (Spec.depthAll_le_sized _ _ ts vs off bs henc) hfuel)
+
+/-- **Composition with C05** (`Proofs/Wire/CostVsCode.lean`), for EVERY signature string, data, offset and byte order -
+hostile input included: the run of `unmarshal` at `Cost.codeFuel sig data off` never ends in the model's out-of-fuel
+outcome (`RecursionError`) nor in `other`; every larger fuel gives the same outcome; and whatever ANY fuel `g` that did
+not run out answers (a value or an exception) is that outcome.  So "the decoder run at `codeFuel`" (what the driver
+executes, and what `C02_decode_fuel_free` speaks about) is the fuel-independent meaning of the model.  Side condition
+of C05's simulation: the descriptors, if given, are scalars (`FdsPlain`; ints in txdbus). -/
+theorem C02_unmarshal_fuel_canonical (fds : Code.Fds) (hfds : CostVsCode.FdsPlain fds) (sig : List Char) (data : Bytes)
+    (off : Nat) (le : Bool) :
+    Code.unmarshal (Cost.codeFuel sig data off) sig data off le fds ≠ .error .recursion ∧
+    Code.unmarshal (Cost.codeFuel sig data off) sig data off le fds ≠ .error .other ∧
+    (∀ fuel, Cost.codeFuel sig data off ≤ fuel →
+      Code.unmarshal fuel sig data off le fds = Code.unmarshal (Cost.codeFuel sig data off) sig data off le fds) ∧
+    (∀ g, Code.unmarshal g sig data off le fds ≠ .error .recursion →
+      Code.unmarshal g sig data off le fds = Code.unmarshal (Cost.codeFuel sig data off) sig data off le fds) := by
+  have h0 := CostVsCode.code_fuel_gen fds hfds sig data off le _ (Nat.le_refl _)
+  refine ⟨h0.1, h0.2, fun fuel hf => ?_, fun g hg => ?_⟩
+  · exact CostVsCode.code_fuel_indep_gen fds hfds sig data off le _ h0.1 fuel hf
+  · exact (CostVsCode.code_fuel_indep_gen fds hfds sig data off le g hg _ (Nat.le_refl _)).symm
+
+/-! Instances (data in `FuelFreeEx`, Proofs/Wire/FuelFree.lean): signature `aa{sv}h`, values `[[{'k': [1, 2]}], 5]` - a
+variant (holding an array) inside a dict inside an array inside an array, then a descriptor; BIG endian at offset 1
+with the specification's alignment table. -/
+section
+open FuelFreeEx
+
+/-- The hypotheses of `C02_decode_fuel_free` hold (`bsB` is what CPython's `marshal` produces; descriptor list `[5]`). -/
+example : allWF ts = true ∧ Spec.encodeAll Spec.alignTable (endianOf false) ts vs 1 = some bsB ∧ pre1.length = 1 ∧
+    Code.fromSpecFields (some [.int .plain 5]) vs ts = some decoded := by
+  exact ⟨by decide, by decide +kernel, rfl, rfl⟩
+
+/-- ... so the decoder, at the fuel computed from its arguments, returns 43 bytes and `[[{'k': [1, 2]}], 5]`. -/
+example : Code.unmarshal (Cost.codeFuel (renderAll ts) (pre1 ++ bsB ++ suf) 1) (renderAll ts) (pre1 ++ bsB ++ suf) 1 false
+    (some [.int .plain 5]) = .ok (bsB.length, decoded) := by
+  exact C02_decode_fuel_free false _ ts vs 1 bsB pre1 suf decoded (by decide) (by decide +kernel) rfl rfl
+
+/-- The hypotheses of `C02_encode_checked_fuel_free` hold, and the encoder at fuel `|sig| + |bytes| = 7 + 43` produces
+`bsB`. -/
+example : Code.marshal ((renderAll ts).length + bsB.length) (renderAll ts) pv 1 false (some []) =
+    .ok (bsB.length, bsB, some [.int .plain 5]) :=
+  C02_encode_checked_fuel_free false 20 ts pv vs [.int .plain 5] 1 bsB _ rfl (by decide +kernel) (Nat.le_refl _)
+
+/-- The same by running the code model in the kernel (`codeFuel = 7 + (46 - 1) + 1 = 53`); at fuel 5, one below the depth
+of the value, both directions answer `RecursionError`. -/
+example :
+    renderAll ts = sig ∧ (renderAll ts).length + bsB.length = 50 ∧ Cost.codeFuel sig (pre1 ++ bsB ++ suf) 1 = 53 ∧
+    depthAll vs = 6 ∧
+    (match Code.marshal 50 sig pv 1 false (some []) with
+     | .ok (n, b, _) => n == 43 && b == bsB
+     | .error _ => false) = true ∧
+    (match Code.unmarshal 53 sig (pre1 ++ bsB ++ suf) 1 false (some [.int .plain 5]) with
+     | .ok (n, vals) => n == 43 && vals.length == 2
+     | .error _ => false) = true ∧
+    (match Code.marshal 5 sig pv 1 false (some []) with
+     | .error e => e == .recursion
+     | .ok _ => false) = true ∧
+    (match Code.unmarshal 5 sig (pre1 ++ bsB ++ suf) 1 false (some [.int .plain 5]) with
+     | .error e => e == .recursion
+     | .ok _ => false) = true := by
+  decide +kernel
+
+/-- `C02_unmarshal_fuel_canonical` on hostile input: 2 nested variants whose innermost signature is the unbalanced `(` -
+`TypeError` at `codeFuel = 1 + 7 + 1 = 9`, hence (by the theorem) at every fuel that does not run out. -/
+example : CostVsCode.FdsPlain (some [.int .plain 5]) ∧
+    (match Code.unmarshal (Cost.codeFuel ['v'] [1, 118, 0, 1, 40, 0, 0] 0) ['v'] [1, 118, 0, 1, 40, 0, 0] 0 true
+        (some [.int .plain 5]) with
+     | .error e => e == .type
+     | .ok _ => false) = true :=
+  ⟨CostVsCode.fdsPlain_ints [5], by decide +kernel⟩
+
+end
 
 /-! ### the layout rules, read off the reference encoder (every alignment table, both byte orders) -/
 
@@ -249,4 +407,12 @@ end Txdbus
 #print axioms Txdbus.C02_encode_conf
 #print axioms Txdbus.C02_encode_checked
 #print axioms Txdbus.C02_decode_dict
+#print axioms Txdbus.C02_decode_any_fuel
+#print axioms Txdbus.C02_decode_fuel_free
+#print axioms Txdbus.C02_decode_dict_fuel_free
+#print axioms Txdbus.C02_encode_fuel_free
+#print axioms Txdbus.C02_encode_noVariant_fuel_free
+#print axioms Txdbus.C02_encode_conf_fuel_free
+#print axioms Txdbus.C02_encode_checked_fuel_free
+#print axioms Txdbus.C02_unmarshal_fuel_canonical
 #print axioms Txdbus.layout_byte_order
